@@ -26,12 +26,12 @@ CHECKS['C13'] = dict(level=MC, ref='4 C13',
     text='Truncation.tla transcribes the selection rule as a two-stage nondeterministic relation on integer spectra (ties are the only freedom). TLC explores every '
          '(spectrum, options) of the bound through both stages and checks limits / top-per-block / top-global / maximality / ties-only / non-binding / weight on every reachable '
          'mask. Each input is then one call of the real truncation_mask; TLC (TraceTruncation) accepts iff the returned mask is in Admissible(sp, o), inferring the hidden stage-1 '
-         'survivors. svd_with_truncation / eigh_with_truncation run on operands with prescribed integer spectra (complex, rank-3, non-zero charge, sU/nU variants, policy fullrank / lowrank '
+         'survivors. svd_with_truncation / eigh_with_truncation run on operands with prescribed integer spectra (complex, rank-3, non-zero charge, sU/nU variants, policy fullrank / lowrank / block_arnoldi / block_propack '
          'with different limits per sector, eigh with which in LR/LM/SM/SR - smallest-first orders are validated on the order-reversed spectrum): kept spectrum '
          'per sector and squared error must be an admissible outcome.',
     note='bounded: <=2 sectors x <=3 values in 0..2 (quick) / 0..3 + 3 sectors + unsorted (thorough); D_total in {0,1,2,3,5,inf}, D_block scalar {0,1,2,inf} or dict with missing keys, '
          'tol/tol_block in {0,1/3,1/2,1} scalar or dict. Decompositions: spectra without exact zeros and tolerances off exact boundaries (float round-off decides there); '
-         'error equality observed at 1e-6 on integers. truncate_multiplets / mask_f not modelled yet.',
+         'error equality observed at 1e-6 on integers. truncate_multiplets / mask_f are outside the statement (they deliberately exceed D_total); policy krylov (a global solver marked WIP in the source, D_block is read as the total number of values) and randomized (not available on the NumPy backend) are not exercised.',
     technique='TLA+ spec (Truncation) + TLC exhaustive model checking + trace validation: one implementation test per spec input, membership in the admissible set decided by TLC')
 TT = ('programs executed on real yastn tensors; every event logs the observed abstract state alpha(result) (or the rejection) and TLC (TraceTensor.tla, batched trace validation) '
       'recomputes the result from the OBSERVED operands with the label-based reference semantics of TensorOps.tla in exact Gaussian-integer arithmetic, independently of yastn and NumPy')
